@@ -88,6 +88,22 @@ func c10Families(tier string) []engine.Family {
 			ev := exts[x.Choose(len(exts))]
 			c10Body(x, pos, cons, ev, false)
 		}},
+		{Name: "ext-pairs-and-sizes", Arity: []int{2, c10Consumers}, Body: func(x *engine.Exec) {
+			// all ordered pairs of width-boundary values per integer array kind, and every typed array / map with 23..257 elements,
+			// at top level and in the middle of an array of known length
+			pos := []c10Position{c10Positions[0], c10Positions[3]}[x.Choose(2)]
+			cons := x.Choose(c10Consumers)
+			pairs := extPairsCache()
+			k := x.Choose(len(pairs) + len(extSizes))
+			var ev model.Event
+			if k < len(pairs) {
+				ev = pairs[k]
+			} else {
+				sized := gen.ExtSizedEvents(extSizes[k-len(pairs)])
+				ev = sized[x.Choose(len(sized))]
+			}
+			c10Body(x, pos, cons, ev, false)
+		}},
 		{Name: "keyref-vs-key", Arity: []int{c10Consumers}, Body: func(x *engine.Exec) {
 			cons := x.Choose(c10Consumers)
 			k := []string{"", "a", "é\"\\\n", "\xff", string(bytes.Repeat([]byte{'k'}, 70))}[x.Choose(5)]
